@@ -40,7 +40,7 @@ FitsUint64(a) == ~a.n /\ Cmp(a.c, TwoP64) < 0
 
 Modifying == {"Add", "Sub", "Mul", "Quo", "Rem", "Div", "Mod", "And", "Or", "Xor", "AndNot", "GCD", "Neg", "Abs", "Set", "Not",
               "Sqrt", "Lsh", "Rsh", "SetBit0", "SetBit1", "Exp", "QuoRem", "DivMod", "SetInt64", "SetUint64", "SetString",
-              "SetBytes", "MulRange", "Binomial"}
+              "SetBytes", "MulRange", "Binomial", "SetBitsOf", "ModInverse", "GobRoundTrip", "UnmarshalText", "UnmarshalJSON", "Sscan"}
 DivLike == {"Quo", "Rem", "Div", "Mod", "QuoRem", "DivMod"}
 \* the defined result of the receiver for the arithmetic core, or "none"
 HasSem(m) == m \in {"Add", "Sub", "Mul", "Quo", "Rem", "Div", "Mod", "QuoRem", "DivMod", "Neg", "Abs", "Set", "Lsh", "Rsh", "SetInt64", "SetUint64", "Exp"}
